@@ -373,6 +373,59 @@ def _transform_kw(kw, t, shape):
     return out
 
 
+def _classify_1dg_flip(data, kw, t, base, obs, exp):
+    """Classification only (never a verdict) of a failed flip relation of centroid_1dg.
+
+    Harness-side replica of the marginal problem of the flipped axis (masked sums, weights 1/sqrt(sum error^2)),
+    its own multi-start least-squares fit (global minimum) and the signed-moment width that seeds the library's
+    fit.  Returns True when (a) the moment width is below half a pixel (a start narrower than the sampling: the
+    model touches a single sample), and (b) exactly one of the two orientations ended at the global minimum
+    while the other stopped elsewhere - i.e. the mechanism of the known finding, not an orientation-dependent
+    code path (which would move BOTH results or leave the global minimum in neither/both)."""
+    from scipy.optimize import least_squares
+    try:
+        ax = 1 if t == 'ud' else 0            # ud flips y: marginal over x
+        comp = 1 if t == 'ud' else 0          # component of the (x, y) result that is affected
+        d = np.asarray(data, float)
+        bad = ~np.isfinite(d)
+        if kw.get('mask') is not None:
+            bad |= np.asarray(kw['mask'], bool)
+        err = kw.get('error')
+        if err is not None:
+            bad |= ~np.isfinite(np.asarray(err, float))
+        y = np.where(bad, 0.0, d).sum(axis=ax)
+        if err is not None:
+            e2 = np.where(bad, 0.0, np.asarray(err, float) ** 2).sum(axis=ax)
+            w = 1.0 / np.sqrt(np.clip(e2, 1e-60, None))
+        else:
+            w = np.ones(y.size)
+        w[bad.all(axis=ax)] = 0.0
+        y = y / np.max(np.abs(y))
+        w = w / np.max(w)
+        x = np.arange(y.size, dtype=float)
+        mu = np.sum(x * y) / np.sum(y)
+        width = math.sqrt(abs(np.sum(y * (x - mu) ** 2) / np.sum(y)))
+
+        def res(p):
+            return w * (p[0] * np.exp(-0.5 * ((x - p[1]) / p[2]) ** 2) - y)
+        best = None
+        for s0 in (0.5, 1.0, 2.0, 3.0):
+            for m0 in (float(np.argmax(np.where(w > 0, y, -np.inf))), mu):
+                r = least_squares(res, [1.0, m0, s0], bounds=([-np.inf, -np.inf, 1e-3], np.inf),
+                                  xtol=1e-13, ftol=1e-13, gtol=1e-13)
+                if best is None or r.cost < best.cost:
+                    best = r
+        gmin = best.x[1]
+        n = y.size - 1
+        base_at = abs(base[comp] - gmin) < 1e-3
+        # the flipped call: its result mapped back to the unflipped frame
+        back = (n - obs[comp])
+        obs_at = abs(back - gmin) < 1e-3
+        return bool(width < 0.5 and (base_at != obs_at))
+    except Exception:  # noqa: BLE001
+        return False
+
+
 def _relations(case, func, fname, data, kw, tol, mech, scale_error=True, scale_tol=None, scale_verdict=True):
     """flipud / fliplr / transpose / positive rescale, each vs the base call.
     Comparisons in which the library itself warned that an iterative fit did not converge are
@@ -400,6 +453,8 @@ def _relations(case, func, fname, data, kw, tol, mech, scale_error=True, scale_t
             if not m['far_scale']:
                 _absdev(case, f'{fname}_commutes_with_flip_transpose_moderate_scale', obs, exp)
         _absdev(case, f'{fname}_commutes_with_flip_transpose', obs, exp)
+        if fname == 'gauss1dg' and t in ('ud', 'lr') and not core.same(obs, exp, atol=tol)[0]:
+            m['explained_by_degenerate_initial_width'] = _classify_1dg_flip(data, kw, t, base, obs, exp)
         case.close(obs, exp, f'{fname}_commutes_with_flip_transpose', atol=tol, mech=m, base=base)
         n += 1
     if rng.random() < 0.35:
